@@ -8,7 +8,8 @@ import pykoop
 from .. import core, lmi_common as lc
 
 THEOREMS = ['Pk.C13.C13_eigpairs', 'Pk.C13.C13_eigvec', 'Pk.C13.C13_mode_ne_zero', 'Pk.C13.C13_rank',
-            'Pk.C13.C13_projected', 'Pk.C13.C13_spectrum_partial', 'Pk.C13.C13_charpoly', 'Pk.C13.C13_spectrum']
+            'Pk.C13.C13_projected', 'Pk.C13.C13_spectrum_partial', 'Pk.C13.C13_charpoly', 'Pk.C13.C13_spectrum',
+            'Pk.C13.C13_reconstruction_real', 'Pk.C13.C13_real_part_eigpairs']
 LEVEL = 'other'
 
 
@@ -57,8 +58,32 @@ def check(ctx):
         for _ in range(rng.randint(2, nx - 1)):
             rows.append(A0 @ rows[-1])
         X, kw = np.array(rows), {'n_inputs': 0, 'episode_feature': False}
+    if form == 'float64' and rng.random() < 0.12:
+        # a DEFECTIVE system (repeated eigenvalue with a single eigenvector: double integrator, critically damped
+        # oscillator, Jordan blocks), noise-free: LAPACK returns nearly parallel modes and nearly equal eigenvalues
+        form = 'defective'
+        rs = np.random.RandomState(rng.randint(0, 2 ** 31 - 1))
+        nx = rng.choice([2, 2, 3])
+        mu, dt = rng.choice([1.0, 0.9, 0.5]), rng.choice([0.1, 0.5, 1.0])
+        J = mu * np.eye(nx) + dt * np.eye(nx, k=1)
+        if nx == 3 and rng.random() < 0.5:
+            J[1, 2] = 0.0
+            J[2, 2] = rng.choice([0.3, -0.6])
+        B0 = rs.uniform(-1, 1, (nx, nu))
+        blocks = []
+        for l in range(rng.randint(1, 3)):
+            n = rng.randint(12, 25)
+            x = np.zeros((n, nx)); x[0] = rs.uniform(-1, 1, nx)
+            u = rs.uniform(-1, 1, (n, nu))
+            for k in range(n - 1):
+                x[k + 1] = J @ x[k] + B0 @ u[k]
+            blocks.append(np.hstack((np.full((n, 1), l), x, u)))
+        X, kw = np.vstack(blocks), {'n_inputs': nu, 'episode_feature': True}
     mode = rng.choice(['exact', 'projected'])
-    if nu == 0 and rng.random() < (0.6 if form != 'wide' else 1.0):
+    if form == 'defective' and rng.random() < 0.7:
+        est = (pykoop.Dmd(mode_type=mode) if nu == 0 else pykoop.Dmdc(mode_type=mode))
+        desc = f"{'Dmd' if nu == 0 else 'Dmdc'}({mode}, economy)"
+    elif nu == 0 and rng.random() < (0.6 if form != 'wide' else 1.0):
         t, td = tsvd_choice(rng, min(nx, X.shape[0] - 1) if form == 'wide' else nx)
         est = pykoop.Dmd(mode_type=mode, tsvd=t)
         desc = f'Dmd({mode}, {td})'
@@ -104,16 +129,30 @@ def check(ctx):
         return None, case, 'modes not left-invertible (degenerate)'         # hypothesis not met: nothing claimed
     # conclusions on coef_
     if r and np.max(np.abs(A @ V - V * lam[None, :])) > tol:
+        case['clause'] = 'eigenpairs'
         return (f'{desc}: (eigenvalues_, modes_) are not eigenpairs of the state-transition block of coef_ '
                 f'(residual {np.max(np.abs(A @ V - V * lam[None, :])):.3g})', case, None)
+    # hypotheses of C13_reconstruction_real on the fitted factors (accounted in the evidence, nothing is claimed
+    # where they are not met): conjugate-closed eigenpairs
+    if r:
+        closed = all(any(abs(lam[j] - np.conj(lam[i])) <= 1e-8 * max(1.0, abs(lam[i]))
+                         and np.linalg.norm(V[:, j] - np.conj(V[:, i])) <= 1e-6 * max(1e-300, np.linalg.norm(V[:, i]))
+                         for j in range(r)) for i in range(r))
+        case['conj_closed'] = bool(closed)
+        svV = np.linalg.svd(V, compute_uv=False)
+        # linearly dependent modes (LAPACK returns an exactly repeated eigenvalue with parallel eigenvectors for a
+        # defective reduced operator): the hypothesis `V has a left inverse` of the C13 theorems is not met
+        case['degenerate_modes'] = bool(svV[-1] <= 1e-12 * svV[0])
     rank_A = np.linalg.matrix_rank(A, tol=1e-9 * scale)
     if rank_A > r:
+        case['clause'] = 'rank'
         return f'{desc}: rank of the state-transition block {rank_A} exceeds the retained rank {r}', case, None
     ev = np.linalg.eigvals(A)
     nz = sorted((e for e in ev if abs(e) > 1e-7 * scale), key=lambda z: (round(z.real, 6), round(z.imag, 6)))
     lam_nz = sorted((e for e in lam if abs(e) > 1e-7 * scale), key=lambda z: (round(z.real, 6), round(z.imag, 6)))
     if len(nz) != len(lam_nz) or any(min(abs(a - b) for b in lam_nz) > 1e-5 * scale for a in nz) \
             or any(min(abs(a - b) for b in nz) > 1e-5 * scale for a in lam_nz):
+        case['clause'] = 'spectrum'
         return f'{desc}: non-zero spectrum of the state-transition block {nz} differs from eigenvalues_ {lam_nz}', case, None
     return None, case, None
 
@@ -127,7 +166,7 @@ def run(ctx):
                        'to diff against; theorems C13_* are about the formula A_r = V Lambda V^+ and the tie is a numeric '
                        'validation of their hypotheses and conclusions on every fitted estimator (1e-7 scale tolerances)')
     ctx.assumptions = ['scipy.linalg.eig / lstsq / svd (LAPACK) are trusted and validated numerically',
-                       'conjugate-closed eigenpairs (so that real(..) loses nothing) are validated, not proved']
+                       'that LAPACK returns conjugate-closed eigenpairs (hypothesis of C13_reconstruction_real: then real(..) loses nothing) is validated on every fit, not proved']
     ctx.proof_obligations('Properties.C13', THEOREMS)
     def cases(n, stop_at_first=False):
         for i in range(n):
@@ -136,9 +175,12 @@ def run(ctx):
             ctx.count('form:' + case['form'])
             if note:
                 ctx.count('note:' + note[:40])
+            if 'conj_closed' in case:
+                ctx.count('hypothesis conjugate-closed eigenpairs (C13_reconstruction_real): ' + ('met' if case['conj_closed'] else 'not met'))
             ctx.record_case({k: v for k, v in case.items() if k != 'X'}, True)
             if why:
-                ctx.fail(why, case, {'estimator': case['estimator'].split('(')[0]})
+                ctx.fail(why, case, {'estimator': case['estimator'].split('(')[0], 'clause': case.get('clause'),
+                                     'degenerate_modes': case.get('degenerate_modes', False)})
                 if stop_at_first:
                     return
     cases(ctx.n(150, 2500))
